@@ -86,6 +86,12 @@ def _one_case(ctx, env, bil, bil_dense, lin, lin_dense, fun, itp):
     el = _run(ctx, key + ':functional', 'Functional.elemental on a stub basis', info, lambda: fform.elemental(ub, c=wc))
     tot = _run(ctx, key + ':functional-assemble', 'Functional.assemble on a stub basis', info, lambda: fform.assemble(ub, c=wc))
     if el is not None and tot is not None:
+        # direct oracle (also available when the translator fails closed): per-cell sums over the quadrature points
+        wa, dxa = np.array(wc), np.array(ub.dx)
+        ref = ((k0[0] * wa + k0[1] * wa * wa + k0[2]) * dxa).sum(-1)
+        if np.shape(el) != ref.shape or not np.array_equal(el, ref) or float(np.asarray(tot)) != float(ref.sum()):
+            ctx.fail(key + ':functional-value', 'Functional.elemental / assemble differ from the per-cell quadrature sums',
+                     dict(info, k0=k0, elemental=np.asarray(el).tolist(), expected=ref.tolist(), total=float(np.asarray(tot))))
         fun.append((f'({clist([cz(x) for x in k0])}, {wterm}, {ub_t})',
                     f'({clist([cz(x) for x in S.exact_ints(el)])}, {cz(S.exact_ints(tot)[0])})', ('fun', nt >= 2, info)))
     # --- interpolate
